@@ -15,7 +15,7 @@ const FMTS_N = ["n2", "n3"];
 
 function pickKey(rng) { return rng.chance(1, 10) ? rng.pick(HOSTILE_KEYS) : rng.pick(KEYS); }
 
-function genTplItem(rng, d) {
+export function genTplItem(rng, d) {
   switch (rng.below(d > 0 ? 6 : 5)) {
     case 0: return A("str");
     case 1: return A("num");
@@ -24,10 +24,10 @@ function genTplItem(rng, d) {
     default: return [A("oneof"), ...Array.from({ length: 1 + rng.below(3) }, () => genTplItem(rng, d - 1))];
   }
 }
-function tplDescribe(items) {
+export function tplDescribe(items) {
   return "`" + items.map((it) => (it instanceof Atom ? "${" + { str: "string", num: "number", bool: "boolean" }[it.s] + "}" : head(it) === "lit" ? it[1] : "(" + it.slice(1).map((x) => tplDescribe([x])).join(" | ") + ")")).join("") + "`";
 }
-function genConst(rng) {
+export function genConst(rng) {
   switch (rng.below(8)) {
     case 0: return A("null");
     case 1: return [A("b"), A(rng.chance(1, 2) ? "true" : "false")];
@@ -35,7 +35,7 @@ function genConst(rng) {
     default: return [A("s"), rng.pick(["a", "b", "c", "ab", "x", "constructor", "toString", "__proto__", ""])];
   }
 }
-function genLeaf(rng) {
+export function genLeaf(rng) {
   switch (rng.below(22)) {
     case 0: case 1: case 2: return [A("typeof"), "string"];
     case 3: case 4: return [A("typeof"), "number"];
@@ -54,7 +54,7 @@ function genLeaf(rng) {
     default: return [A("typeof"), rng.pick(["string", "number"])];
   }
 }
-function genObject(rng, d, names, forceKey) {
+export function genObject(rng, d, names, forceKey) {
   const n = rng.below(4);
   const props = new Map();
   if (forceKey) props.set(forceKey[0], forceKey[1]);
@@ -176,7 +176,7 @@ export function genEnv(rng) {
 }
 
 // ---- values ----
-function randomValue(rng, d) {
+export function randomValue(rng, d) {
   switch (rng.below(d > 0 ? 18 : 12)) {
     case 0: return null;
     case 1: return undefined;
@@ -199,7 +199,7 @@ function tplMember(rng, it) {
   if (head(it) === "lit") return it[1];
   return tplMember(rng, rng.pick(it.slice(1)));
 }
-function lookupEnv(env, name) { const e = env.find((p) => p[0] === name); return e ? e[1] : null; }
+export function lookupEnv(env, name) { const e = env.find((p) => p[0] === name); return e ? e[1] : null; }
 export function member(rng, rt, env, d) {
   if (d < -6) return null;
   if (rt instanceof Atom) {
